@@ -340,11 +340,11 @@ theorem recv_scalar (n : Nat) (ih : Sound cfg sfh n) (b : Ty) (v : Val)
     inst cfg sfh .scalar v = true := by
   unfold asgRecv at h
   simp only [Ty.w] at hw
-  have key : (asg cfg sfh .str b || asg cfg sfh .numeric b || asg cfg sfh (.bool none) b || asg cfg sfh (.regexp "") b) = true →
-      inst cfg sfh .scalar v = true := by
+  have key : (asg cfg sfh .str b || asg cfg sfh .numeric b || asg cfg sfh (.bool none) b || asg cfg sfh (.regexp "") b ||
+      asg cfg sfh (.tspan Rng.all) b) = true → inst cfg sfh .scalar v = true := by
     intro h
     simp only [Bool.or_eq_true] at h
-    rcases h with ((h | h) | h) | h
+    rcases h with (((h | h) | h) | h) | h
     · have := ih .str b v (by simp [Ty.w]; omega) (leaf_hyp cfg sfh H _ (by unfold Ty.Frag; trivial) (by unfold Ty.WF; trivial)) h hi
       unfold inst at this ⊢; cases v <;> simp [isScalarVal] at this ⊢
     · have := ih .numeric b v (by simp [Ty.w]; omega) (leaf_hyp cfg sfh H _ (by unfold Ty.Frag; trivial) (by unfold Ty.WF; trivial)) h hi
@@ -352,6 +352,8 @@ theorem recv_scalar (n : Nat) (ih : Sound cfg sfh n) (b : Ty) (v : Val)
     · have := ih (.bool none) b v (by simp [Ty.w]; omega) (leaf_hyp cfg sfh H _ (by unfold Ty.Frag; trivial) (by unfold Ty.WF; trivial)) h hi
       unfold inst at this ⊢; cases v <;> simp [isScalarVal] at this ⊢
     · have := ih (.regexp "") b v (by simp [Ty.w]; omega) (leaf_hyp cfg sfh H _ (by unfold Ty.Frag; trivial) (by unfold Ty.WF; trivial)) h hi
+      unfold inst at this ⊢; cases v <;> simp [isScalarVal] at this ⊢
+    · have := ih (.tspan Rng.all) b v (by simp [Ty.w]; omega) (leaf_hyp cfg sfh H _ (by unfold Ty.Frag; trivial) (by unfold Ty.WF; trivial)) h hi
       unfold inst at this ⊢; cases v <;> simp [isScalarVal] at this ⊢
   cases b with
   | scalar => exact hi
